@@ -207,6 +207,10 @@ enum Corruption {
     PrevHashLen31,
     HeightTooLarge,
     HeaderGarbage,
+    /// unparsable non-empty header TOGETHER with a hash field that is not 32 bytes
+    HeaderGarbageHashEmpty,
+    /// the same with the previous-hash field
+    HeaderGarbagePrevHashShort,
 }
 
 const ALL_CORRUPTIONS: &[Corruption] = &[
@@ -217,6 +221,7 @@ const ALL_CORRUPTIONS: &[Corruption] = &[
     Corruption::OrchardNfLen31, Corruption::OrchardNfNonCanonical, Corruption::CmxLen31, Corruption::CmxNonCanonical,
     Corruption::ActionEpkLen33, Corruption::ActionCtLen0, Corruption::TxidLen31, Corruption::TxidLen0,
     Corruption::IndexTooLarge, Corruption::HashLen31, Corruption::PrevHashLen31, Corruption::HeightTooLarge, Corruption::HeaderGarbage,
+    Corruption::HeaderGarbageHashEmpty, Corruption::HeaderGarbagePrevHashShort,
 ];
 
 #[derive(PartialEq, Eq, Debug)]
@@ -293,6 +298,15 @@ fn corrupt(cb: &CompactBlock, c: Corruption, rng: &mut impl Rng) -> Option<(Comp
             b.header = (0..rng.gen_range(1..200)).map(|_| rng.r#gen()).collect();
             // an unparsable header is documented to be ignored (hash/prev_hash fields are used)
             e = Expect::MayAccept;
+        }
+        HeaderGarbageHashEmpty => {
+            // neither source of the block hash is usable: must be refused
+            b.header = (0..*[1usize, 80, 140, 1486].choose(rng).unwrap()).map(|_| rng.r#gen()).collect();
+            b.hash.clear();
+        }
+        HeaderGarbagePrevHashShort => {
+            b.header = (0..*[1usize, 80, 140, 1486].choose(rng).unwrap()).map(|_| rng.r#gen()).collect();
+            b.prev_hash.truncate(rng.gen_range(0..32));
         }
     }
     Some((b, e))
@@ -434,6 +448,26 @@ fn main() {
                         let after = dump::dump(w.db.conn(), false).expect("dump");
                         if after != before {
                             r.violation(&format!("C05:scan_cached_blocks:partially-applied:{c:?}"), dump::diff(&before, &after), json!({"hist": hi, "height": h, "corruption": format!("{c:?}")}));
+                        }
+                        // the same corrupted block as the SECOND block of a batch (its predecessor is
+                        // then known from the batch itself, not from the database): the batch starts
+                        // with a re-scan of the already scanned block h-1
+                        if h - 1 > sim.base_height() && w.scanned.contains_key(&(h - 1)) {
+                            r.count("corruptions_mid_batch", 1);
+                            r.count(&format!("corruption_mid_batch_{c:?}"), 1);
+                            let res = guard(|| w.scan_from_source(&sim, &src, h - 1, 2));
+                            match res {
+                                Err(p) => r.violation(&format!("C05:scan_cached_blocks:panic:mid-batch:{c:?}"), p, json!({"hist": hi, "height": h, "corruption": format!("{c:?}")})),
+                                Ok(Ok(_)) => {
+                                    r.violation(&format!("C05:scan_cached_blocks:accepted:mid-batch:{c:?}"), format!("height {h} as second block of a batch"), json!({"hist": hi, "height": h, "corruption": format!("{c:?}")}));
+                                    break;
+                                }
+                                Ok(Err(_)) => r.count("corruptions_rejected_mid_batch", 1),
+                            }
+                            let after = dump::dump(w.db.conn(), false).expect("dump");
+                            if after != before {
+                                r.violation(&format!("C05:scan_cached_blocks:partially-applied:mid-batch:{c:?}"), dump::diff(&before, &after), json!({"hist": hi, "height": h, "corruption": format!("{c:?}")}));
+                            }
                         }
                     }
                 }
